@@ -234,6 +234,51 @@ def run(ctx):
                     ctx.violation('release %d %s with a %d-byte text (published encoding): %s' % (v, name, len(text.encode()), bad),
                                   {'release': v, 'packet': name, 'bytes': len(text.encode())},
                                   key={'release': v, 'packet': name, 'kind': 'long-text'})
+    # Join Game through the version-independent accessors (is_hardcore / pure_game_mode), in BOTH assignment
+    # orders: before 1.16.2 (protocol 738) the hardcore flag is bit 0x8 of the game-mode byte, afterwards a
+    # separate Boolean; the published bytes do not depend on the order of the two assignments
+    for v in rp.RELEASES:
+        if v in missing_rel:
+            continue
+        lay = rp.layout('join_game', v)
+        if lay is None or any(t == 'nbt' for _, t in lay):
+            continue
+        cx = ConnectionContext(protocol_version=v)
+        cls = next((c for c in tabs['cbPlay'].get_packets(cx) if c.__name__ == 'JoinGamePacket'), None)
+        if cls is None:
+            continue
+        names = [n for n, _ in lay]
+        for order in ('hardcore-first', 'mode-first'):
+            for hard, mode in ((True, 1), (False, 2), (True, 0), (True, 3)):
+                vals = {n: gen(rng, t, 2) for n, t in lay}
+                p = cls(cx)
+                for n, x in vals.items():
+                    if n not in ('game_mode', 'is_hardcore'):
+                        setattr(p, n, x)
+                if order == 'hardcore-first':
+                    p.is_hardcore = hard
+                    p.pure_game_mode = mode
+                else:
+                    p.pure_game_mode = mode
+                    p.is_hardcore = hard
+                if 'is_hardcore' in names:
+                    vals['is_hardcore'], vals['game_mode'] = hard, mode
+                else:
+                    vals['game_mode'] = mode | (8 if hard else 0)
+                ref_payload = rc.varint(rp.packet_id('join_game', v)) + b''.join(ref_enc(t, vals[n]) for n, t in lay)
+                sock = io.BytesIO()
+                sock.send = sock.write
+                ctx.case(('join-game-accessors', v, order, hard, mode))
+                try:
+                    p.write(sock)
+                    got = sock.getvalue()
+                except Exception as e:
+                    got = repr(e).encode()
+                if got != rc.varint(len(ref_payload)) + ref_payload:
+                    ctx.violation('release %d join_game with is_hardcore=%s, pure_game_mode=%d assigned %s: bytes %s, published %s'
+                                  % (v, hard, mode, order, got.hex()[:40], (rc.varint(len(ref_payload)) + ref_payload).hex()[:40]),
+                                  {'release': v, 'order': order, 'hardcore': hard, 'mode': mode},
+                                  key={'release': v, 'packet': 'join_game', 'kind': 'accessors', 'order': order})
     # a write that fails (a value that cannot be encoded, or the socket raising) must leave no trace in
     # the NEXT packet written by the same thread
     for v in rp.RELEASES:
